@@ -220,7 +220,8 @@ RULE = ("explicit-state BFS over histories of clean_content([line..]) events on 
         "reached from two different depth-1 states is counted and expanded in both). evaluations = "
         "transitions = distinct (state, event) executions of the real clean_content; a branch is continued past a violation "
         "only when every violation of the event carries the structural trigger of a known defect family, at most once "
-        "per history and only at its first or second event (the involved originals are then forgotten by the oracle), "
+        "per history and only at its first or second event (the involved originals are then forgotten by the oracle; "
+        "such histories are explored to depth 3 in both tiers), "
         "otherwise it is cut. On top of the BFS: 6 long counter runs and the "
         "explicit 'shapes' histories (delimiter adjacency, glue, the five entry channels, no_obfuscate specs, 11 keywords, a "
         "second Cleaner, blank lines), each executed once through the replay entry point. A transition / case is "
@@ -769,6 +770,10 @@ FORGIVE_WITHIN = 2    # and only when that event is its first or second one (mea
                       # doubles the thorough tier to 9,500 CPU-s; a trigger at the last depth is a leaf anyway)
 
 
+FORGIVEN_DEPTH = 3    # BFS histories that were continued past a trigger are explored to this depth (both tiers; the
+                      # post-trigger subtrees to depth 4 alone cost 3,500 CPU-s in the thorough tier)
+
+
 def may_forgive(forgiven_so_far, event_index):
     return forgiven_so_far < MAX_FORGIVEN and event_index < FORGIVE_WITHIN
 
@@ -1228,6 +1233,8 @@ def run_unit(unit, tier):
         while frontier and depth < depth_bound:
             nxt = []
             for hist, snap, obs, nforg in frontier:
+                if nforg and len(hist) >= FORGIVEN_DEPTH:
+                    continue
                 for ev in evs:
                     if skipped(fam, obs, ev):
                         continue
